@@ -37,7 +37,7 @@ Lemma rt_show_seq_string : forall its pre rest, show_seq_ok rt_cfg its rest ->
   = SOk (values_of its) (snd (print_to_string rt_cfg pre (length pre) its)).
 Proof. intros. now apply show_seq_roundtrip_string; [apply rt_cfg_ok|]. Qed.
 
-Lemma rt_show_seq_file : forall its old rest, show_seq_ok rt_cfg its rest -> lits_plain its ->
+Lemma rt_show_seq_file : forall its old rest, show_seq_ok rt_cfg its rest -> lits_ok rt_cfg its rest ->
   scan_file rt_cfg (skipn (length old) (fst (print_to_file rt_cfg old (length old) its) ++ rest)) (length old)
     (map sitem_of its) []
   = SOk (values_of its) (snd (print_to_file rt_cfg old (length old) its)).
@@ -68,8 +68,8 @@ Proof.
   vm_compute. repeat split; try (intros; discriminate); try lia; repeat constructor; try discriminate.
 Qed.
 
-Example ex_lits_plain : lits_plain [PShow (VInt 1); PLit [44]; PShow (VStr [32; 9])].
-Proof. repeat constructor. Qed.
+Example ex_lits_ok : lits_ok rt_cfg ex_items ex_rest.
+Proof. cbn [lits_ok ex_items]. repeat split; (left; vm_compute; reflexivity) || (right; vm_compute; reflexivity). Qed.
 
 Example ex_show_seq_run :
   scan_str rt_cfg ([112; 112] ++ print_items rt_cfg ex_items ++ [32; 120]) 2 (map sitem_of ex_items) []
@@ -88,7 +88,7 @@ Lemma rt_seq_string : forall its sits pre rest, wf_seq rt_cfg its sits rest ->
     /\ Forall2 value_close (values_of its) vs'.
 Proof. intros. now apply wf_seq_roundtrip_string; [apply rt_cfg_ok_float|]. Qed.
 
-Lemma rt_seq_file : forall its sits old rest, wf_seq rt_cfg its sits rest -> lits_plain its ->
+Lemma rt_seq_file : forall its sits old rest, wf_seq rt_cfg its sits rest -> lits_ok rt_cfg its rest ->
   exists vs',
     scan_file rt_cfg (skipn (length old) (fst (print_to_file rt_cfg old (length old) its) ++ rest)) (length old) sits []
     = SOk vs' (snd (print_to_file rt_cfg old (length old) its))
